@@ -106,11 +106,11 @@ func (d *BaseLeecher) UnregisterPeer(peer string) error {
 	d.Mu.Lock()
 	defer d.Mu.Unlock()
 
+	delete(d.Peers, peer)
 	if d.callback.OngoingSessionPeer() == peer {
 		d.callback.TerminateSession()
 		d.Routine()
 	}
-	delete(d.Peers, peer)
 	return nil
 }
 
